@@ -1,7 +1,7 @@
 (* C10 - A committed tree reads back exactly; shared nodes live until unreferenced. *)
 From Coq Require Import NArith List Bool.
 From PDB Require Import Model.MultiTree Proofs.MultiTreeProofs Proofs.MultiTreeReadback.
-From PDB Require Model.RcTable Proofs.RcTableProofs Proofs.RcRefines Proofs.MultiTreeForest.
+From PDB Require Model.RcTable Proofs.RcTableProofs Proofs.RcRefines Proofs.MultiTreeForest Proofs.MultiTreePipe.
 Import ListNotations.
 Open Scope N_scope.
 
@@ -147,7 +147,8 @@ Qed.
 End Counters.
 
 (* The whole forest. Histories of single-operation transactions on a column that is not append-only, each
-   processed before the next one is made (nothing queued, no reader lock held): an inserted tree names existing
+   processed before the next one is made (nothing queued, no reader lock held), with restarts (drop + open, or a
+   process crash + open) anywhere in between: an inserted tree names existing
    children that are stored nodes and uses a root key that is free. Then, whatever the trees share:
    - the count of every stored node is the number of references to it from roots and stored nodes,
    - every node that can be reached from a live root is stored ("shared nodes live until unreferenced"),
@@ -195,6 +196,66 @@ Proof.
 Qed.
 End Forest.
 
+(* The same with the commit pipeline in play: transactions of one operation are made at any moment (queued, their new
+   nodes in the commit overlay) and processed later, in order, any number of them waiting; reader locks are taken and
+   released at any moment (a dereference of a locked tree is postponed and goes to the back of the queue), a process
+   crash loses what was queued.
+   A commit may name as existing children nodes that an earlier, still queued commit will create. As long as every
+   commit finds, when its turn comes, what its author saw - an insertion its root key free and the existing children
+   it names stored, a dereference the root it read when it was made ([head_ok]) - the stored forest keeps the invariant
+   after every processing step: counts are reference numbers, reachable nodes are stored, and once no root is left
+   nothing is left. *)
+Module Pipelined.
+Import PDB.Proofs.MultiTreeForest PDB.Proofs.MultiTreePipe.
+Theorem C10_pipelined_count_is_number_of_references :
+  forall cf s id, m_append_only cf = false -> pipe_run cf s -> In id (map fst (nodes s)) ->
+  N.to_nat (cnt s id) = (count_occ N.eq_dec (kids_r (roots s)) id + count_occ N.eq_dec (kids_n (nodes s)) id)%nat.
+Proof. exact pipe_count_is_number_of_references. Qed.
+Theorem C10_pipelined_reachable_nodes_are_stored :
+  forall cf s id, m_append_only cf = false -> pipe_run cf s -> reach s id ->
+  (exists n, alook (nodes s) id = Some n) /\ (exists n, MultiTree.get_node s id = Some n).
+Proof. intros cf s id Hao Hr Hre. split; [exact (pipe_reachable_is_stored cf s id Hao Hr Hre)|exact (pipe_reachable_is_readable cf s id Hao Hr Hre)]. Qed.
+Theorem C10_pipelined_all_dereferenced_is_empty :
+  forall cf s, m_append_only cf = false -> pipe_run cf s -> roots s = [] -> nodes s = [] /\ nrc s = [] /\ num_entries s = 0.
+Proof. exact pipe_all_dereferenced_is_empty. Qed.
+Theorem C10_processing_keeps_the_forest :
+  forall cf s c rest, PInv s -> mqueue s = c :: rest -> (must_defer s c rest = false -> head_ok s c) -> PInv (mprocess cf s).
+Proof.
+  intros cf s c rest P Hq Hok. destruct (must_defer s c rest) eqn:Hd; [exact (defer_keeps cf s c rest P Hq Hd)|exact (process_keeps cf s c rest P Hq Hd (Hok eq_refl))].
+Qed.
+
+(* non-vacuity: tree 0 and a tree 1 that shares node 1 of tree 0 are both committed before anything is processed (node 1
+   only exists in the commit overlay when tree 1 names it); both are processed; both dereferences are committed, then
+   processed: nothing is left *)
+Definition px_cf : mcfg := {| m_rc := false; m_append_only := false |}.
+Definition px_c (s : mstate) (o : uop) : mstate := fst (mcommit_tx px_cf s [o]).
+Definition px_s2 : mstate := px_c (px_c minit (UInsertTree 0 (TNode 10 [TNew (TNode 11 [TNew (TNode 12 [])])]))) (UInsertTree 1 (TNode 20 [TExisting 1; TNew (TNode 21 [])])).
+Definition px_s4 : mstate := mprocess px_cf (mprocess px_cf px_s2).
+Definition px_s6 : mstate := px_c (px_c px_s4 (UDerefTree 0)) (UDerefTree 1).
+Definition px_s8 : mstate := mprocess px_cf (mprocess px_cf px_s6).
+Example C10_pipelined_history :
+  pipe_run px_cf px_s8 /\ length (mqueue px_s2) = 2%nat /\ nodes px_s2 = [] /\
+  map fst (nodes px_s4) = [3; 1; 2] /\ cnt px_s4 1 = 2 /\ nodes px_s8 = [] /\ roots px_s8 = [].
+Proof.
+  split; [|vm_compute; repeat split; reflexivity].
+  assert (R2 : pipe_run px_cf px_s2).
+  { unfold px_s2, px_c. apply pr_commit; [apply pr_commit; [apply pr_init|]|]; left; eexists; eexists; reflexivity. }
+  assert (R3 : pipe_run px_cf (mprocess px_cf px_s2)).
+  { destruct (mqueue px_s2) as [|c rest] eqn:Eq; [vm_compute in Eq; discriminate|]. eapply pr_process; [exact R2|exact Eq|intros _].
+    vm_compute in Eq. injection Eq as <- <-. vm_compute. split; [reflexivity|]. intros i Hi; repeat (match type of Hi with _ \/ _ => destruct Hi as [Hi|Hi] end); try discriminate; try contradiction. }
+  assert (R4 : pipe_run px_cf px_s4).
+  { unfold px_s4. destruct (mqueue (mprocess px_cf px_s2)) as [|c rest] eqn:Eq; [vm_compute in Eq; discriminate|]. eapply pr_process; [exact R3|exact Eq|intros _].
+    vm_compute in Eq. injection Eq as <- <-. vm_compute. split; [reflexivity|]. intros i Hi; repeat (match type of Hi with _ \/ _ => destruct Hi as [Hi|Hi] end); try discriminate; try contradiction; injection Hi as <-; tauto. }
+  assert (R6 : pipe_run px_cf px_s6).
+  { unfold px_s6, px_c. apply pr_commit; [apply pr_commit; [exact R4|]|]; right; right; eexists; reflexivity. }
+  assert (R7 : pipe_run px_cf (mprocess px_cf px_s6)).
+  { destruct (mqueue px_s6) as [|c rest] eqn:Eq; [vm_compute in Eq; discriminate|]. eapply pr_process; [exact R6|exact Eq|intros _].
+    vm_compute in Eq. injection Eq as <- <-. vm_compute. reflexivity. }
+  unfold px_s8. destruct (mqueue (mprocess px_cf px_s6)) as [|c rest] eqn:Eq; [vm_compute in Eq; discriminate|]. eapply pr_process; [exact R7|exact Eq|intros _].
+  vm_compute in Eq. injection Eq as <- <-. vm_compute. reflexivity.
+Qed.
+End Pipelined.
+
 Print Assumptions C10_node_pack_roundtrip.
 Print Assumptions C10_unrepresentable_rejected.
 Print Assumptions C10_insert_reads_back_after_commit.
@@ -210,3 +271,7 @@ Print Assumptions Forest.C10_all_dereferenced_is_empty.
 Print Assumptions Forest.C10_forest_invariant_kept.
 Print Assumptions Counters.C10_tables_hold_the_models_count_map.
 Print Assumptions Counters.C10_count_map_steps_are_the_models.
+Print Assumptions Pipelined.C10_pipelined_count_is_number_of_references.
+Print Assumptions Pipelined.C10_pipelined_reachable_nodes_are_stored.
+Print Assumptions Pipelined.C10_pipelined_all_dereferenced_is_empty.
+Print Assumptions Pipelined.C10_processing_keeps_the_forest.
